@@ -69,6 +69,7 @@ package secec
 //@   ensures abs(pt) == O ==> result0 == nil && result1 != nil
 //@   ensures abs(pt) != O ==> result1 == nil && result0.point == pt
 //@   fresh result0
+//@   shares result0.point
 //@
 //@ func NewPublicKeyFromPoint
 //@   props C10 C18
@@ -109,6 +110,7 @@ package secec
 //@   using smul_nonzero(val(s), G)
 //@   using gen_not_identity()
 //@   fresh result0
+//@   shares result0.scalar
 //@
 //@ func NewPrivateKeyFromScalar
 //@   ct
